@@ -83,7 +83,7 @@ fn res(r: anyhow::Result<P>) -> String {
 }
 
 fn eval(op: &str, args: &[P]) -> String {
-    if op.starts_with("L:") {
+    if op.starts_with("L:") || op.starts_with("M:") {
         // list kernels: the operand list may be empty (empty receiver, no argument)
         return verif_native_ext::eval_ext(op, args);
     }
